@@ -527,7 +527,14 @@ def units():
             FunctionUnit(UpdatePlanContract("set")), FunctionUnit(UpdatePlanContract("list")),
             FunctionUnit(CallContract()),
             LemmaUnit("lemma:A-SINK", sink_closure_lemma),
-            LemmaUnit("lemma:step-composition", step_composition_lemma)]
+            LemmaUnit("lemma:step-composition", step_composition_lemma)] + _single_step()
+
+
+def _single_step():
+    # the step-composition lemma needs the protocol of a step: reset first, then the plan built from the sinks of the
+    # current phase, then the controller is run (NumpyInterpreter.run_single_step; contract shared with C01 / C11)
+    from .steploop import SingleStepInterp
+    return [FunctionUnit(SingleStepInterp())]
 
 
 LEVEL = "proof"
